@@ -16,7 +16,7 @@ func init() {
 	register(&Property{
 		ID:      "C16",
 		NeedSSA: true,
-		Decided: "Structural necessary conditions: (ptrkinds) the set of value kinds whose Value points into external memory is computed from the constructor calls of the library (makeValueBytes / makeValueByteArray with a constant kind), and every kind switch that protects such memory — Value.Clone, rowAllocator.capture, the detach decision of newRowGroupRows — covers that whole set; (inputs) no function of the write API family (Write, WriteRows, WriteValues, WriteRow, WriteRowValues and the functions they hand their slices to) stores through a caller-provided slice parameter or passes it, or a part of it, to a callee that writes through the corresponding parameter (clearing, capturing, reordering helpers), except the frozen exceptions; (alloc) reconstruction allocates a fresh slice (reflect.MakeSlice on every path of setMakeSlice) and a fresh pointee (reflect.New on the pointer path) instead of reusing what the destination held; (detach) the value reader releases a page through the detaching path exactly when detach is set, and detaching never releases the values buffer. (assign) in functions filling a reflect.Value from a parquet Value, the value's byte slice (which points into a page buffer) reaches no reflect setter, no store into memory outliving the call and no module function doing either, unless it went through a copying operation (alias-preserving operations are enumerated: slicing, conversions, unsafe.String/Slice, unsafecast, reflect.ValueOf and views, append as destination); (inplace) AssignValue implementations never write through a view (Bytes/Slice/Index/Elem...) of the destination except under Kind()==Array; (destreads) reconstruct closures call only setters and type queries on the destination, never methods that read what it already holds. (borrowed) a struct field of type []Row that is filled by appending rows of a []Row parameter holds borrowed rows: nowhere in the package are the Values behind its elements written (no store through an element of an element, no clear/copy into an element, no call of a function that writes the row it is given or does any of these to the rows of a slice parameter); dropping or reordering the headers is allowed. (keepconfig) no method overwrites its whole receiver with a composite literal that leaves out a field which code outside the type's own methods assigns (configuration an owner sets on the instances it creates, e.g. the detach flag of a column chunk value reader).",
+		Decided: "Structural necessary conditions: (ptrkinds) the set of value kinds whose Value points into external memory is computed from the constructor calls of the library (makeValueBytes / makeValueByteArray with a constant kind), and every kind switch that protects such memory — Value.Clone, rowAllocator.capture, the detach decision of newRowGroupRows — covers that whole set; (inputs) no function of the write API family (Write, WriteRows, WriteValues, WriteRow, WriteRowValues and the functions they hand their slices to) stores through a caller-provided slice parameter or passes it, or a part of it, to a callee that writes through the corresponding parameter (clearing, capturing, reordering helpers), except the frozen exceptions; (alloc) reconstruction allocates a fresh slice (reflect.MakeSlice on every path of setMakeSlice) and a fresh pointee (reflect.New on the pointer path) instead of reusing what the destination held; (detach) the value reader releases a page through the detaching path exactly when detach is set, and detaching never releases the values buffer. (assign) in functions filling a reflect.Value from a parquet Value, the value's byte slice (which points into a page buffer) reaches no reflect setter, no store into memory outliving the call and no module function doing either, unless it went through a copying operation (alias-preserving operations are enumerated: slicing, conversions, unsafe.String/Slice, unsafecast, reflect.ValueOf and views, append as destination); (inplace) AssignValue implementations never write through a view (Bytes/Slice/Index/Elem...) of the destination except under Kind()==Array; (destreads) reconstruct closures call only setters and type queries on the destination, never methods that read what it already holds. (borrowed) a struct field of type []Row that is filled by appending rows of a []Row parameter holds borrowed rows: nowhere in the package are the Values behind its elements written (no store through an element of an element, no clear/copy into an element, no call of a function that writes the row it is given or does any of these to the rows of a slice parameter); dropping or reordering the headers is allowed. (keepconfig) no method overwrites its whole receiver with a composite literal that leaves out a field which code outside the type's own methods assigns (configuration an owner sets on the instances it creates, e.g. the detach flag of a column chunk value reader). (retainrow) a Row kept in a struct field by a function that receives []Row is filled with cloned values, never with a row of the parameter or a shallow append of one.",
 		NotDecided: "absence of every dangling alias (escape analysis over unsafe pointers is out of reach); pool reuse timing; aliasing that flows through struct fields rather than parameters; raw-variant structs written through a pointer already present in the destination.",
 		Assumptions: []string{"parameter-write summaries follow static calls to depth 3; dynamic calls through interfaces are not followed"},
 		Run:         runC16,
@@ -33,6 +33,7 @@ func runC16(c *Ctx) {
 	runDestReadsRule(c, "C16.destreads", 5)
 	runBorrowedRowsRule(c, "C16.borrowed", 3)
 	runKeepConfigRule(c, "C16.keepconfig", 10)
+	runRetainedRowRule(c, "C16.retainrow", 1)
 }
 
 func c16PtrKinds(c *Ctx) {
